@@ -17,7 +17,11 @@ import (
 
 	"github.com/kubewharf/kubebrain/pkg/backend"
 	"github.com/kubewharf/kubebrain/pkg/metrics"
+	"github.com/kubewharf/kubebrain/pkg/server"
+	"github.com/kubewharf/kubebrain/pkg/server/etcd"
+	"github.com/kubewharf/kubebrain/pkg/server/service/leader"
 	"github.com/kubewharf/kubebrain/pkg/storage"
+	pb "go.etcd.io/etcd/api/v3/etcdserverpb"
 
 	kbprom "github.com/kubewharf/kubebrain/pkg/metrics/prometheus"
 
@@ -74,6 +78,7 @@ type raceScenario struct {
 	Lazy    int     `json:"lazy_watchers,omitempty"`      // watchers that never read: the hub has to drop them
 	Prom    bool    `json:"real_prometheus,omitempty"`    // the production metrics client on a registry of this run's own
 	Parts   bool    `json:"partitioned_engine,omitempty"` // the engine reports several partitions: scans and compactions run one worker per partition
+	EtcdAPI bool    `json:"etcd_watch_server,omitempty"`  // a real server.NewServer over the backend, elected through the real lock: watches also go through the etcd watch server
 	Skips   bool    `json:"skipped_prefixes,omitempty"`   // the node is configured with prefixes that compaction leaves alone
 	Follow  bool    `json:"follower_reads,omitempty"`     // a second node over the same engine serves reads, adopting the first one's revision before each
 }
@@ -120,6 +125,9 @@ func genRace(r *rt.Rand, idx int) raceScenario {
 	// (one run per worker process: no goroutine of an earlier run is alive when the registry is replaced)
 	sc.Prom = idx%2 == 0
 	sc.Skips = idx%3 == 1
+	if idx%5 == 3 && sc.Lazy == 0 && sc.TTL == 0 {
+		sc.EtcdAPI, sc.Fault = true, 0 // (no storage faults: a failed lock renewal ends the process)
+	}
 	sc.Parts = idx%4 == 1 && sc.Engine == "memkv"
 	if idx%6 == 2 {
 		sc.Engine, sc.Follow = "memkv", true
@@ -154,6 +162,9 @@ func runRace(sc raceScenario) (ops int64) {
 	rm := world.NewRecMetrics(prod)
 	defer func() {
 		fmt.Fprintf(os.Stderr, "\nRACE-RUN-INFO slow watchers dropped: %.0f, watchers added: %.0f\n", rm.Counter("drop.slow.watcher"), rm.Counter("watcher_hub.add_watcher"))
+		if sc.EtcdAPI {
+			fmt.Fprintf(os.Stderr, "RACE-RUN-INFO etcd watches: %.0f, refused by the backend: %.0f, cancelled: %.0f\n", rm.Counter("watch.watch"), rm.Counter("watch.backend.err"), rm.Counter("watch.cancel"))
+		}
 	}()
 	cfg := backend.Config{Prefix: prefix, Identity: "race", WatchCacheSize: sc.Cache, EnableEtcdCompatibility: true}
 	if sc.Skips {
@@ -161,6 +172,20 @@ func runRace(sc raceScenario) (ops int64) {
 	}
 	b := backend.NewBackend(kv, cfg, rm)
 	b.SetCurrentRevision(1000)
+	var es *etcd.RPCServer
+	if sc.EtcdAPI {
+		srv := server.NewServer(b, rm, server.Config{})
+		var le leader.LeaderElection
+		es, _, le = server.HandlersForSim(srv)
+		go le.Campaign()
+		for i := 0; i < 500 && !le.IsLeader(); i++ {
+			time.Sleep(10 * time.Millisecond)
+		}
+		if !le.IsLeader() {
+			fmt.Fprintln(os.Stderr, "race workload: the node did not become leader")
+			os.Exit(2)
+		}
+	}
 	lead := b
 	var follower backend.Backend
 	if sc.Follow {
@@ -255,6 +280,20 @@ func runRace(sc raceScenario) (ops int64) {
 						}
 					}
 				default:
+					if es != nil && r.Intn(2) == 0 {
+						// through the etcd watch server: often from a revision that is no longer cached, so that the
+						// watch's own goroutine cancels it while the request goroutine is still registering it
+						st := world.NewEtcdWatchStream()
+						go es.Watch(st)
+						start := int64(b.GetCurrentRevision()) - int64(r.Intn(40))
+						st.Reqs <- &pb.WatchRequest{RequestUnion: &pb.WatchRequest_CreateRequest{CreateRequest: &pb.WatchCreateRequest{Key: []byte(prefix + "/"), RangeEnd: []byte(prefix + "0"), StartRevision: start}}}
+						cancels = append(cancels, st.Cancel)
+						if len(cancels) > 3 {
+							cancels[0]()
+							cancels = cancels[1:]
+						}
+						break
+					}
 					wctx, cancel := context.WithCancel(ctx)
 					start := uint64(0)
 					switch r.Intn(3) {
